@@ -1,6 +1,6 @@
 (* C17 property theorems: statements only; every proof is [exact lemma]. *)
 From Coq Require Import String.
-From Gv Require Import lib.Bytes lib.Gql C17.Util C17.ValueSyntax C17.Base C17.Model C17.Spec
+From Gv Require Import lib.Bytes lib.Gql C17.Util C17.ValueSyntax C17.Base C17.Model C17.ModelV0 C17.Spec
   C17.ProofsValue C17.ProofsFuel C17.ProofsJson C17.ProofsSpec C17.ProofsMain C17.Witness.
 
 (* the theorems' hypotheses are satisfiable by a non-trivial schema (all type kinds, an interface,
@@ -17,32 +17,35 @@ Theorem c17_roundtrip_partial : forall S, wf_schema S = true -> lossy_clauses S 
 Proof. exact roundtrip_partial_proof. Qed.
 Print Assumptions c17_roundtrip_partial.
 
-(* ... and fails for each excluded construct taken alone (the full statement is false) *)
+(* ... and fails for each excluded construct taken alone (the full statement is false).  The four
+   converter losses interface-implements / repeatable / inputvalue-deprecated / specified-by have been repaired:
+   their theorems below are HISTORICAL statements about the pre-fix converter (ModelV0.convert_v0) together
+   with the fact that the repaired converter round-trips the witness. *)
 Theorem c17_roundtrip_refuted : exists S, wf_schema S = true /\ roundtrip_b S = false.
 Proof. exact roundtrip_refuted_proof. Qed.
 Print Assumptions c17_roundtrip_refuted.
 
 Theorem c17_roundtrip_refuted_interface_implements :
-  wf_schema w_interface_implements = true /\ lossy_clauses w_interface_implements = [#"interface-implements"]
-  /\ roundtrip_b w_interface_implements = false /\ exact_of_generate_b w_interface_implements = true.
+  wf_schema w_interface_implements = true /\ roundtrip_b_v0 w_interface_implements = false
+  /\ lossy_clauses w_interface_implements = [] /\ roundtrip_b w_interface_implements = true.
 Proof. exact w_interface_implements_ok. Qed.
 Print Assumptions c17_roundtrip_refuted_interface_implements.
 
 Theorem c17_roundtrip_refuted_repeatable :
-  wf_schema w_repeatable = true /\ lossy_clauses w_repeatable = [#"repeatable"]
-  /\ roundtrip_b w_repeatable = false /\ exact_of_generate_b w_repeatable = true.
+  wf_schema w_repeatable = true /\ roundtrip_b_v0 w_repeatable = false
+  /\ lossy_clauses w_repeatable = [] /\ roundtrip_b w_repeatable = true.
 Proof. exact w_repeatable_ok. Qed.
 Print Assumptions c17_roundtrip_refuted_repeatable.
 
 Theorem c17_roundtrip_refuted_inputvalue_deprecated :
-  wf_schema w_inputvalue_deprecated = true /\ lossy_clauses w_inputvalue_deprecated = [#"inputvalue-deprecated"]
-  /\ roundtrip_b w_inputvalue_deprecated = false /\ exact_of_generate_b w_inputvalue_deprecated = true.
+  wf_schema w_inputvalue_deprecated = true /\ roundtrip_b_v0 w_inputvalue_deprecated = false
+  /\ lossy_clauses w_inputvalue_deprecated = [] /\ roundtrip_b w_inputvalue_deprecated = true.
 Proof. exact w_inputvalue_deprecated_ok. Qed.
 Print Assumptions c17_roundtrip_refuted_inputvalue_deprecated.
 
 Theorem c17_roundtrip_refuted_specified_by :
-  wf_schema w_specified_by = true /\ lossy_clauses w_specified_by = [#"specified-by"]
-  /\ roundtrip_b w_specified_by = false /\ exact_of_generate_b w_specified_by = true.
+  wf_schema w_specified_by = true /\ roundtrip_b_v0 w_specified_by = false
+  /\ lossy_clauses w_specified_by = [] /\ roundtrip_b w_specified_by = true.
 Proof. exact w_specified_by_ok. Qed.
 Print Assumptions c17_roundtrip_refuted_specified_by.
 
@@ -91,15 +94,16 @@ Theorem c17_complete_exact_refuted_root_invented :
 Proof. exact w_root_invented_ok. Qed.
 Print Assumptions c17_complete_exact_refuted_root_invented.
 
-(* the generator is not total on valid schemas: @deprecated(reason: null) *)
+(* HISTORICAL: the pre-fix generator was not total on valid schemas: @deprecated(reason: null) *)
 Theorem c17_generate_total_refuted :
-  wf_schema w_reason_null = true /\ lossy_clauses w_reason_null = [#"reason-null"] /\ generate w_reason_null = None.
+  wf_schema w_reason_null = true /\ generate_v0 w_reason_null = None
+  /\ lossy_clauses w_reason_null = [] /\ exact_of_generate_b w_reason_null = true /\ roundtrip_b w_reason_null = true.
 Proof. exact w_reason_null_ok. Qed.
 Print Assumptions c17_generate_total_refuted.
 
 (* ---- type references: wrappers of every depth, in order, and the leaf kind ---- *)
-Theorem c17_typeref_faithful_partial : forall S, wf_schema S = true -> generate_lossy S = [] ->
-  forall t, (exists d, find_type (named_of t) (s_types (with_base S)) = Some d) ->
+Theorem c17_typeref_faithful_partial : forall S t,
+  (exists d, find_type (named_of t) (s_types (with_base S)) = Some d) ->
   typeref_matches (with_base S) t (typeref (build_index S (merge_base S)) t).
 Proof. exact typeref_faithful_proof. Qed.
 Print Assumptions c17_typeref_faithful_partial.
@@ -109,9 +113,12 @@ Theorem c17_typeref_faithful_data : forall S, wf_schema S = true -> generate_los
 Proof. exact typeref_data_proof. Qed.
 Print Assumptions c17_typeref_faithful_data.
 
+(* HISTORICAL: the pre-fix generator took the leaf kind from the first node of ANY kind under the name *)
 Theorem c17_typeref_faithful_refuted :
-  wf_schema w_name_collision = true /\ lossy_clauses w_name_collision = [#"name-collision"]
-  /\ typerefs_of_generate_b w_name_collision = false /\ exact_of_generate_b w_name_collision = false.
+  wf_schema w_name_collision = true
+  /\ typerefs_of_generate_b_v0 w_name_collision = false /\ exact_of_generate_b_v0 w_name_collision = false
+  /\ lossy_clauses w_name_collision = [] /\ typerefs_of_generate_b w_name_collision = true
+  /\ exact_of_generate_b w_name_collision = true /\ roundtrip_b w_name_collision = true.
 Proof. exact w_name_collision_ok. Qed.
 Print Assumptions c17_typeref_faithful_refuted.
 
